@@ -675,6 +675,11 @@ class Run:
             # every scope whose cancellation would be visible to the task: its own stack and
             # the ancestors up to (and including) the first shielded one
             chain = self.visible_chain(tid)
+            if any(m.cancelled for m in chain):
+                # a really cancelled scope sits just beyond a shield that went up a moment
+                # ago: the interruption is a delivery committed before the shield existed
+                # (judged as that tie by the caller) and needs no inferred hand-over
+                return
 
             for n in chain:
                 if n.kind == "group" and n.sid[1:].isdigit() and int(n.sid[1:]) in self.in_aexit:
